@@ -581,7 +581,14 @@ impl Compiler {
                 } else {
                     let taken = self.builder.regex.select(taken_name_ids);
                     let not_taken = self.builder.regex.not(taken);
-                    let valid_ast = self.json_general_unicode_string(0, None)?;
+                    // Same key syntax as json_simple_string(): printable \uXXXX escapes only
+                    // when the option asks for them, otherwise a declared name could be
+                    // re-spelt (e.g. "\u0061" for "a") and escape its own schema.
+                    let valid_ast = if self.options.json_allow_general_unicode_escapes {
+                        self.json_general_unicode_string(0, None)?
+                    } else {
+                        self.json_quote(RegexAst::Regex("(?s:.*)".to_string()))
+                    };
                     let valid = self.builder.regex.add_ast(valid_ast)?;
                     let valid_and_not_taken = self.builder.regex.and(vec![valid, not_taken]);
                     self.builder.lexeme(valid_and_not_taken)
